@@ -18,7 +18,10 @@
 EXTENDS Junos, Integers
 
 CONSTANTS PNames, A4, A6,
-          FixEmptyTerm      \* TRUE: no name-only term for an empty family (fix 99b76e8); FALSE: as found
+          FixEmptyTerm,     \* TRUE: no name-only term for an empty family (fix 99b76e8); FALSE: as found
+          SkipNoReject      \* FALSE: an installed policy without trailing reject is read like any other (fix: the
+                            \*   update re-asserts the reject and removes stale ranges); TRUE: as found - skipped,
+                            \*   i.e. treated as not installed, and then merged into
 
 Fam == {"inet", "inet6"}
 AtomsOf(f) == IF f = "inet" THEN A4 ELSE A6
@@ -33,8 +36,8 @@ Status == {[kind |-> "unmarked"], [kind |-> "fail"]} \cup {[kind |-> "ok", t |->
 FamilySet(p, f) ==
   LET ks == {k \in 1..Len(p.terms) : p.terms[k].family = f} IN
   IF ks = {} THEN {} ELSE SeqSet(p.terms[CHOOSE k \in ks : TRUE].filters)
-InstalledView(eph) ==     \* name -> [inet, inet6]; policies without trailing reject are skipped
-  [n \in {eph[k].name : k \in {k \in 1..Len(eph) : eph[k].reject}} |->
+InstalledView(eph) ==     \* name -> [inet, inet6]
+  [n \in {eph[k].name : k \in {k \in 1..Len(eph) : eph[k].reject \/ ~SkipNoReject}} |->
      [inet |-> FamilySet(Get(eph, n), "inet"), inet6 |-> FamilySet(Get(eph, n), "inet6")]]
 ReaderAccepts(eph) == \A k \in 1..Len(eph) : Readable(eph[k])
 
